@@ -1,7 +1,434 @@
-//! C36 — not implemented yet (see DESIGN.md section 4).
-use kit::Run;
-use serde_json::Value;
+//! C36 — time-stamps are used only when they match the signature; an expired certificate is accepted only with a
+//! matching, valid token inside its validity.
+//! S-env: the kit signer answers `send_timestamp_request` from a menu (right token from the kit encoder, right token
+//! from `openssl ts -reply`, token for another message, foreign TSA, genTime before notBefore / after notAfter)
+//! x signing certificate {valid, short window, expired, not yet valid} x claim v1/v2; and the right token with EVERY
+//! byte altered in turn (altered in place inside the signed asset: the token lives in the unprotected COSE header,
+//! outside every hash and signature of the manifest).
+//! Oracle, one-directional as the property: a signing time is reported => the token matches and its CMS signature
+//! verifies. For altered bytes the token is invalid BY CONSTRUCTION when the byte lies in the TSTInfo, the signed
+//! attributes, the signature, the signer id, the digest algorithm or the signer's public key; elsewhere (wrappers,
+//! versions, digestAlgorithms set, other certificate bytes) OpenSSL's CMS_verify is consulted and disagreement is
+//! only counted (OpenSSL may be stricter for reasons the property does not name).
+//!
+//! Mutants caught (tools/mutant_run.sh E <patch> C36 quick):
+//!   mutants/C36-skip-imprint.diff     (message-imprint comparison skipped)
+//!   mutants/C36-skip-cms-sig.diff     (CMS signature failure ignored)
 
-pub fn run(_run: &Run, _replay: Option<&Value>) {
-    kit::ev::machinery("C36: check not implemented");
+use std::sync::{Arc, Mutex};
+
+use kit::{
+    par,
+    pki::{self, CertSpec, Hierarchy, KeyKind, KitSigner, Obs, TokenOpts, Tsa, DAY},
+    Run,
+};
+use serde_json::{json, Value};
+
+const WINDOWS: &[&str] = &["valid", "short", "expired", "future"];
+
+#[derive(Clone, Copy, PartialEq, Eq, Debug)]
+enum Tok {
+    None,
+    /// kit token, right imprint, genTime inside the certificate validity
+    Right,
+    /// openssl ts -reply for the SDK's own request (genTime = now)
+    RightCli,
+    OtherMessage,
+    ForeignTsa,
+    BeforeNb,
+    AfterNa,
+}
+const TOKS: &[Tok] = &[Tok::None, Tok::Right, Tok::RightCli, Tok::OtherMessage, Tok::ForeignTsa, Tok::BeforeNb, Tok::AfterNa];
+impl Tok {
+    fn name(self) -> &'static str {
+        match self {
+            Tok::None => "none",
+            Tok::Right => "right",
+            Tok::RightCli => "right-cli-now",
+            Tok::OtherMessage => "other-message",
+            Tok::ForeignTsa => "foreign-tsa",
+            Tok::BeforeNb => "before-notBefore",
+            Tok::AfterNa => "after-notAfter",
+        }
+    }
+    fn from(s: &str) -> Tok {
+        TOKS.iter().copied().find(|t| t.name() == s).unwrap_or(Tok::None)
+    }
+}
+
+struct Env {
+    now: i64,
+    tsa: Arc<Tsa>,
+    foreign: Arc<Tsa>,
+}
+
+fn window(w: &str, now: i64) -> (i64, i64) {
+    match w {
+        "valid" => (pki::Y2020, pki::Y2040),
+        "short" => (now - 20 * DAY, now + 20 * DAY),
+        "expired" => (now - 30 * DAY, now - DAY),
+        "future" => (now + DAY, now + 30 * DAY),
+        other => kit::ev::machinery(format!("C36: unknown window {other}")),
+    }
+}
+
+fn hierarchy(w: &str, now: i64) -> Hierarchy {
+    let mut s = CertSpec::ee(&format!("c36 {w} signer"));
+    (s.not_before, s.not_after) = window(w, now);
+    Hierarchy::build("c36", 1, KeyKind::P256, s)
+}
+
+/// genTime for a token kind; None = combination not generated
+fn gen_time(tok: Tok, w: &str, now: i64) -> Option<i64> {
+    let (nb, na) = window(w, now);
+    match tok {
+        Tok::None => Some(now),
+        Tok::RightCli => Some(now),
+        Tok::Right | Tok::OtherMessage | Tok::ForeignTsa => match w {
+            "valid" | "short" => Some(now - 3600),
+            "expired" => Some(na - 9 * DAY),
+            _ => None, // a token dated in the future is not a case the property describes
+        },
+        Tok::BeforeNb => {
+            if w == "valid" {
+                None
+            } else {
+                Some(nb - DAY)
+            }
+        }
+        Tok::AfterNa => {
+            if w == "expired" {
+                Some(now - 3600)
+            } else {
+                None
+            }
+        }
+    }
+}
+
+type Minted = Arc<Mutex<Vec<(Vec<u8>, Vec<u8>)>>>; // (reply, imprint of the SDK's message)
+
+fn tsa_fn(env: &Env, tok: Tok, gt: i64, minted: &Minted) -> pki::TsaFn {
+    let tsa = if tok == Tok::ForeignTsa { env.foreign.clone() } else { env.tsa.clone() };
+    let minted = minted.clone();
+    Arc::new(move |msg: &[u8]| {
+        let imprint = pki::sha256(msg);
+        let opts = TokenOpts { gen_time: gt, signing_time_attr: None, serial: pki::next_serial(), include_certs: true };
+        let reply = match tok {
+            Tok::RightCli => match tsa.cli_reply(&Tsa::query(&imprint)) {
+                Ok(r) => r,
+                Err(e) => return Some(Err(c2pa::Error::BadParam(format!("kit tsa cli: {e}")))),
+            },
+            Tok::OtherMessage => tsa.build_reply(&pki::sha256(b"some other message"), &opts),
+            _ => tsa.build_reply(&imprint, &opts),
+        };
+        minted.lock().unwrap().push((reply.clone(), imprint));
+        Some(Ok(reply))
+    })
+}
+
+fn read_ctx(env: &Env, h: &Hierarchy) -> c2pa::Context {
+    let anchors = format!("{}{}", env.tsa.root.pem(), h.root.as_ref().map(|r| r.pem()).unwrap_or_default());
+    pki::read_ctx(json!({"trust_anchors": anchors}), json!({"verify_trust": true}))
+}
+
+struct Signed {
+    h: Hierarchy,
+    asset: Vec<u8>,
+    /// reply handed to the SDK and the imprint of the SDK's message
+    minted: Option<(Vec<u8>, Vec<u8>)>,
+}
+
+fn sign(env: &Env, w: &str, v2: bool, tok: Tok) -> Option<Signed> {
+    let gt = gen_time(tok, w, env.now)?;
+    let h = hierarchy(w, env.now);
+    let minted: Minted = Arc::new(Mutex::new(vec![]));
+    let mut s = KitSigner::for_hierarchy(&h).direct();
+    s.v2 = v2;
+    if tok != Tok::None {
+        s = s.with_tsa(tsa_fn(env, tok, gt, &minted));
+    }
+    let asset = match pki::sign_asset(&s, "image/png", &kit::assets::png(), if v2 { pki::DEF_V2 } else { pki::DEF_V1 }) {
+        Ok(a) => a,
+        Err(e) => kit::ev::machinery(format!("C36: signing failed for window={w} v2={v2} tok={}: {e}", tok.name())),
+    };
+    let m = minted.lock().unwrap().last().cloned();
+    if tok != Tok::None && m.is_none() {
+        kit::ev::machinery("C36: the SDK never asked the signer for a time-stamp");
+    }
+    Some(Signed { h, asset, minted: m })
+}
+
+fn ts_fail_reported(o: &Obs) -> bool {
+    o.codes.iter().any(|c| {
+        let code = c.split(':').nth(1).unwrap_or("");
+        code.starts_with("timeStamp.") && code != "timeStamp.validated" && code != "timeStamp.trusted"
+    })
+}
+
+fn menu_case(run: &Run, env: &Env, w: &str, v2: bool, tok: Tok) {
+    let Some(s) = sign(env, w, v2, tok) else { return };
+    // preconditions on the kit's own tokens, by an independent judge
+    if let Some((reply, imprint)) = &s.minted {
+        let token = pki::token_of_reply(reply).unwrap_or_else(|| kit::ev::machinery("C36: reply without token"));
+        let tsa = if tok == Tok::ForeignTsa { &env.foreign } else { &env.tsa };
+        let gt = gen_time(tok, w, env.now).unwrap_or(env.now);
+        let good = pki::ts_verify_cli(&token, imprint, &[&tsa.root], Some(gt));
+        let expect_good = tok != Tok::OtherMessage;
+        if good != expect_good {
+            kit::ev::machinery(format!("C36: openssl ts -verify says {good} for kit token '{}' (expected {expect_good})", tok.name()));
+        }
+    }
+    let o = pki::observe(read_ctx(env, &s.h), "image/png", &s.asset);
+    run.eval();
+    let id = format!("menu/{w}/v{}/{}", if v2 { 2 } else { 1 }, tok.name());
+    run.nontrivial(id.clone());
+    let case = json!({"kind":"menu","window":w,"v2":v2,"tok":tok.name()});
+    let o = match o {
+        Err(p) => {
+            run.violation(format!("panic menu tok={} window={w}", tok.name()), p, case);
+            return;
+        }
+        Ok(o) => o,
+    };
+    run.outcome(format!("{} window={w}: {}", tok.name(), o.class()));
+    let tail = format!("tok={} window={w} claim=v{}", tok.name(), if v2 { 2 } else { 1 });
+    let what = format!("{id}: state {} time {:?} codes {:?}", o.state, o.time, o.pick(&["signingCredential", "timeStamp"]));
+    match tok {
+        Tok::None => {
+            if o.time.is_some() {
+                run.violation(format!("signing-time-without-token {tail}"), what.clone(), case.clone());
+            }
+        }
+        Tok::OtherMessage => {
+            if o.time.is_some() {
+                run.violation(format!("time-taken-from-mismatching-token {tail}"), what.clone(), case.clone());
+            }
+            if !ts_fail_reported(&o) {
+                run.violation(format!("no-timestamp-failure-reported {tail}"), what.clone(), case.clone());
+            }
+        }
+        Tok::Right | Tok::RightCli => {
+            // not demanded by the (only-if) property, but without it the sweep below would be vacuous
+            if w == "valid" && o.time.is_none() {
+                kit::ev::machinery(format!("C36: a right, trusted token on a valid certificate is not used by the SDK ({what}); the check cannot establish its baseline"));
+            }
+        }
+        _ => {}
+    }
+    // expired certificate: accepted only with a matching, valid token inside the validity period
+    if w == "expired" && o.ok_state() {
+        let allowed = tok == Tok::Right; // foreign TSA: whether an untrusted TSA's token is "valid" is left open
+        if !allowed && tok != Tok::ForeignTsa {
+            run.violation(format!("expired-certificate-accepted {tail} state={}", o.state), what, case);
+        }
+    }
+}
+
+// ---- every byte of the right token --------------------------------------------------------------------
+struct SweepSeed {
+    w: &'static str,
+    v2: bool,
+    tsa_kind: KeyKind,
+    signed: Signed,
+    /// offset of the stored token inside the asset, the stored bytes (token for v2, whole reply for v1)
+    at: usize,
+    stored: Vec<u8>,
+    /// offset of the TimeStampToken inside `stored`
+    token_off: usize,
+    regions: Vec<(usize, usize, &'static str)>,
+    base: Obs,
+}
+
+fn sweep_seed(env: &Env, w: &'static str, v2: bool, tsa_kind: KeyKind) -> SweepSeed {
+    let s = sign(env, w, v2, Tok::Right).unwrap_or_else(|| kit::ev::machinery("C36: no sweep seed"));
+    let (reply, imprint) = s.minted.clone().unwrap_or_else(|| kit::ev::machinery("C36: seed without token"));
+    let token = pki::token_of_reply(&reply).unwrap_or_else(|| kit::ev::machinery("C36: seed reply without token"));
+    let stored = if v2 { token.clone() } else { reply.clone() };
+    let at = pki::find(&s.asset, &stored).unwrap_or_else(|| kit::ev::machinery(format!("C36: stored time-stamp not found in the signed asset (v2={v2})")));
+    if pki::find(&s.asset[at + 1..], &stored).is_some() {
+        kit::ev::machinery("C36: stored time-stamp occurs twice in the asset");
+    }
+    let token_off = pki::find(&stored, &token).unwrap_or(0);
+    let regions = pki::token_regions(&token, &env.tsa.cert.der).unwrap_or_else(|| kit::ev::machinery("C36: cannot map the kit token"));
+    if regions.len() != 6 {
+        kit::ev::machinery(format!("C36: token map incomplete: {regions:?}"));
+    }
+    // the judge must accept the unaltered token
+    let econtent = pki::cms_verify_inproc(&token).unwrap_or_else(|| kit::ev::machinery("C36: in-process CMS_verify rejects the unaltered kit token"));
+    if pki::tst_imprint(&econtent).as_deref() != Some(&imprint[..]) {
+        kit::ev::machinery("C36: kit parser does not find the imprint in the unaltered token");
+    }
+    let base = match pki::observe(read_ctx(env, &s.h), "image/png", &s.asset) {
+        Ok(o) => o,
+        Err(p) => kit::ev::machinery(format!("C36: seed read panics: {p}")),
+    };
+    let base2 = pki::observe(read_ctx(env, &s.h), "image/png", &s.asset);
+    if base2.as_ref().ok() != Some(&base) {
+        kit::ev::machinery("C36: seed read not deterministic");
+    }
+    if base.time.is_none() || !base.has("success", "timeStamp.validated") {
+        kit::ev::machinery(format!("C36: sweep seed does not use its time-stamp: {}", base.class()));
+    }
+    SweepSeed { w, v2, tsa_kind, signed: s, at, stored, token_off, regions, base }
+}
+
+fn sweep_one(run: &Run, env: &Env, seed: &SweepSeed, off: usize, mask: u8, stats: &Mutex<Stats>) {
+    let mut asset = seed.signed.asset.clone();
+    asset[seed.at + off] ^= mask;
+    let o = pki::observe(read_ctx(env, &seed.signed.h), "image/png", &asset);
+    run.eval();
+    let region = if off >= seed.token_off { pki::region_of(&seed.regions, off - seed.token_off) } else { None };
+    let rname = region.map(|r| r.0).unwrap_or("open");
+    let case = json!({"kind":"sweep","window":seed.w,"v2":seed.v2,"tsa":seed.tsa_kind.name(),"offset":off,"mask":mask,"region":rname,"rel":region.map(|r| r.1)});
+    let tail = format!("region={rname} claim=v{}", if seed.v2 { 2 } else { 1 });
+    let o = match o {
+        Err(p) => {
+            run.outcome("panic");
+            run.violation(format!("panic sweep {tail}"), format!("offset {off}: {p}"), case);
+            return;
+        }
+        Ok(o) => o,
+    };
+    let used = o.time.is_some();
+    if std::env::var("VERIF_DEBUG").is_ok() {
+        eprintln!("sweep {off}^{mask:02x} ({rname}): {o:?}");
+        let mut st = seed.stored.clone();
+        st[off] ^= mask;
+        let mut log = c2pa::status_tracker::StatusTracker::default();
+        let r = c2pa::crypto::time_stamp::verify_time_stamp(&st, b"x", &c2pa::crypto::cose::CertificateTrustPolicy::default(), &mut log, false);
+        eprintln!("  direct verify_time_stamp: {:?}; logged {:?}", r.map(|_| ()), log.logged_items().iter().map(|i| (i.validation_status.clone(), i.description.clone())).collect::<Vec<_>>());
+    }
+    run.outcome(format!("sweep {rname}: {} used={used}", o.state));
+    let what = format!("window={} tsa={}: byte {off} of the stored time-stamp ({rname}) xor {mask:02x}: state {} time {:?} codes {:?}", seed.w, seed.tsa_kind.name(), o.state, o.time, o.pick(&["signingCredential", "timeStamp"]));
+    if region.is_some() {
+        run.nontrivial(format!("{}/{}/{off}/{mask}", seed.w, seed.v2));
+        // invalid by construction
+        if used {
+            run.violation(format!("time-taken-from-altered-token {tail}"), what.clone(), case.clone());
+        }
+        if !ts_fail_reported(&o) && !o.state.starts_with("Err") {
+            run.violation(format!("no-timestamp-failure-reported-for-altered-token {tail}"), what.clone(), case.clone());
+        }
+        if seed.w == "expired" && o.ok_state() {
+            run.violation(format!("expired-certificate-accepted-with-altered-token {tail} state={}", o.state), what, case);
+        }
+    } else {
+        // open region: consult OpenSSL, count only
+        let mut stored = seed.stored.clone();
+        stored[off] ^= mask;
+        let token = if seed.v2 { Some(stored) } else { pki::token_of_reply(&stored) };
+        let imprint = &seed.signed.minted.as_ref().map(|m| m.1.clone()).unwrap_or_default();
+        let judge = token.as_deref().and_then(pki::cms_verify_inproc).and_then(|e| pki::tst_imprint(&e)).is_some_and(|i| &i == imprint);
+        let mut g = stats.lock().unwrap();
+        match (used, judge) {
+            (true, true) => g.used_ok += 1,
+            (true, false) => {
+                g.used_rejected += 1;
+                if g.used_rejected_offsets.len() < 40 {
+                    g.used_rejected_offsets.push(json!({"offset":off,"mask":mask,"v2":seed.v2,"window":seed.w}));
+                }
+            }
+            (false, true) => g.unused_ok += 1,
+            (false, false) => g.unused_rejected += 1,
+        }
+        // unchanged verdict is not demanded either way; only a gross inconsistency with the seed is noted
+        if used && o.time != seed.base.time {
+            g.time_changed += 1;
+        }
+    }
+}
+
+#[derive(Default)]
+struct Stats {
+    used_ok: u64,
+    used_rejected: u64,
+    unused_ok: u64,
+    unused_rejected: u64,
+    time_changed: u64,
+    used_rejected_offsets: Vec<Value>,
+}
+
+pub fn run(run: &Run, replay: Option<&Value>) {
+    run.rule("menu: signing certificate {valid 2020-2040, +-20 days, expired yesterday, valid from tomorrow} x claim {v2, v1} x token {none, right (kit encoder, genTime inside validity), right (openssl ts -reply, now), \
+              other message, foreign TSA, genTime before notBefore, genTime after notAfter}; sweep: the right token stored in the asset with EVERY byte xor-ed in turn (quick 0x01; thorough 0x01, 0x80, 0xFF) for \
+              {valid, expired} certificates and claim v2 (+ v1). non-trivial = menu cases, and sweep cases whose altered byte lies in a region that invalidates the token by construction.");
+    run.assume("kit tokens are checked by `openssl ts -verify` (menu) / in-process CMS_verify (sweep seeds) before they are used as ground truth; a disagreement is a machinery failure");
+    run.assume("a token signed by a TSA whose root is not anchored is recorded but not judged (the property names imprint and CMS signature only)");
+    run.assume("altered bytes outside TSTInfo / signed attributes / signature / signer id / digest algorithm / signer public key are judged by OpenSSL's CMS_verify and only counted (coverage.open_region_*)");
+    if !pki::cli_available() {
+        kit::ev::machinery("C36: openssl CLI not available");
+    }
+    let now = pki::now();
+    let mk_env = |kind: KeyKind| Env { now, tsa: Arc::new(Tsa::new("c36", kind, |_| {})), foreign: Arc::new(Tsa::new("c36-foreign", kind, |_| {})) };
+    let env = mk_env(KeyKind::P256);
+
+    if let Some(c) = replay {
+        let w = WINDOWS.iter().find(|x| Some(**x) == c["window"].as_str()).copied().unwrap_or("valid");
+        let v2 = c["v2"].as_bool().unwrap_or(true);
+        if c["kind"] == "menu" {
+            menu_case(run, &env, w, v2, Tok::from(c["tok"].as_str().unwrap_or("none")));
+        } else {
+            let kind = KeyKind::from_name(c["tsa"].as_str().unwrap_or("p256"));
+            let env = mk_env(kind);
+            let seed = sweep_seed(&env, w, v2, kind);
+            // offsets move by a byte or two between runs (ECDSA signature length); regions are stable
+            let off = match (c["region"].as_str(), c["rel"].as_u64()) {
+                (Some(r), Some(rel)) if r != "open" => seed.regions.iter().find(|x| x.2 == r).map(|x| x.0 + seed.token_off + rel as usize),
+                _ => c["offset"].as_u64().map(|x| x as usize),
+            }
+            .unwrap_or(0)
+            .min(seed.stored.len() - 1);
+            let stats = Mutex::new(Stats::default());
+            println!("replay sweep: stored time-stamp {} bytes at asset offset {}, regions {:?}, altering byte {off}", seed.stored.len(), seed.at, seed.regions);
+            sweep_one(run, &env, &seed, off, c["mask"].as_u64().unwrap_or(1) as u8, &stats);
+        }
+        return;
+    }
+
+    // ---- menu
+    let mut menu: Vec<(&str, bool, Tok)> = vec![];
+    for w in WINDOWS {
+        for v2 in [true, false] {
+            for &t in TOKS {
+                if gen_time(t, w, now).is_some() {
+                    menu.push((w, v2, t));
+                }
+            }
+        }
+    }
+    run.space("menu: (certificate window, claim version, token kind)", menu.len() as u64, true);
+    par::for_each(&menu, |(w, v2, t)| menu_case(run, &env, w, *v2, *t));
+    run.sample(json!({"menu_case": {"window":"expired","v2":true,"tok":"other-message"}}));
+
+    // ---- sweeps
+    let masks: &[u8] = run.tier.pick(&[0x01u8][..], &[0x01u8, 0x80, 0xFF][..]);
+    let mut seeds: Vec<(&'static str, bool, KeyKind)> = vec![("valid", true, KeyKind::P256), ("expired", true, KeyKind::P256), ("valid", false, KeyKind::P256)];
+    if run.tier.is_thorough() {
+        seeds.push(("expired", false, KeyKind::P256));
+        seeds.push(("valid", true, KeyKind::Rsa2048));
+        seeds.push(("expired", true, KeyKind::Rsa2048));
+    }
+    let stats = Mutex::new(Stats::default());
+    for (w, v2, kind) in seeds {
+        let e2;
+        let envk = if kind == KeyKind::P256 {
+            &env
+        } else {
+            e2 = mk_env(kind);
+            &e2
+        };
+        let seed = sweep_seed(envk, w, v2, kind);
+        let n = seed.stored.len();
+        run.space(&format!("sweep window={w} claim=v{} tsa={}: every byte of the {n}-byte stored time-stamp x {} mask(s)", if v2 { 2 } else { 1 }, kind.name(), masks.len()), (n * masks.len()) as u64, true);
+        run.sample(json!({"sweep_seed": {"window": w, "v2": v2, "tsa": kind.name(), "stored_bytes": n, "invalid_by_construction_regions": seed.regions.iter().map(|r| json!([r.2, r.0, r.1])).collect::<Vec<_>>(), "seed_observation": seed.base.class()}}));
+        let work: Vec<(usize, u8)> = (0..n).flat_map(|o| masks.iter().map(move |m| (o, *m))).collect();
+        par::for_each(&work, |(off, mask)| sweep_one(run, envk, &seed, *off, *mask, &stats));
+    }
+    let g = stats.lock().unwrap();
+    run.extra("open_region_used_and_openssl_accepts", json!(g.used_ok));
+    run.extra("open_region_used_but_openssl_rejects", json!(g.used_rejected));
+    run.extra("open_region_unused_though_openssl_accepts", json!(g.unused_ok));
+    run.extra("open_region_unused_and_openssl_rejects", json!(g.unused_rejected));
+    run.extra("open_region_used_but_openssl_rejects_examples", json!(g.used_rejected_offsets));
 }
